@@ -1,7 +1,9 @@
 package wit
 
 import (
+	"maps"
 	"net/http"
+	"slices"
 	"strings"
 
 	"github.com/nyaruka/gocommon/httpx"
@@ -44,7 +46,9 @@ func (s *service) Classify(env envs.Environment, input string, logHTTP flows.HTT
 		result.Intents[i] = flows.ExtractedIntent{Name: intent.Name, Confidence: intent.Confidence}
 	}
 
-	for nameAndRole, entity := range response.Entities {
+	// the same entity can occur with several roles, so go through them in a stable order and keep them all
+	for _, nameAndRole := range slices.Sorted(maps.Keys(response.Entities)) {
+		entity := response.Entities[nameAndRole]
 		name := strings.Split(nameAndRole, ":")[0]
 		entities := make([]flows.ExtractedEntity, 0, len(entity))
 		for _, candidate := range entity {
@@ -53,7 +57,7 @@ func (s *service) Classify(env envs.Environment, input string, logHTTP flows.HTT
 				Confidence: candidate.Confidence,
 			})
 		}
-		result.Entities[name] = entities
+		result.Entities[name] = append(result.Entities[name], entities...)
 	}
 
 	return result, nil
